@@ -50,6 +50,11 @@ def strip_canon(c):
                 out[k] = []
             else:
                 out[k] = strip_canon(v)
+                kind = dict(aasgen.META.get(cls, [])).get(k, "")
+                if isinstance(out[k], list) and (kind.startswith("set:") or kind.startswith("oset:") or kind == "refset") \
+                        and not kind.startswith("set:enum"):
+                    # the canonical order of an unordered collection was computed on the unstripped members
+                    out[k] = sorted(out[k], key=aasgen._sortkey)
         return out
     return c
 
@@ -82,6 +87,36 @@ def _user_classes():
 
 
 USER_ENCODER, USER_DECODER_FAILSAFE, USER_DECODER_STRICT = _user_classes()
+
+
+_HTTP_SM = None
+
+
+def http_bodies(chk, i):
+    """parses one JSON and one XML request body through basyx.aas.adapter.http.HTTPApiDecoder, alternating level=core and
+    full, and checks what comes back (the qualifier of the submodel must be there iff the request was not stripped)"""
+    global _HTTP_SM
+    from basyx.aas import model
+    from basyx.aas.adapter.http import HTTPApiDecoder
+    from basyx.aas.adapter.json import AASToJsonEncoder
+    from basyx.aas.adapter.xml import object_to_xml_element
+    from lxml import etree
+    if _HTTP_SM is None:
+        sm = model.Submodel("urn:c18:http", submodel_element=[model.Property("p", model.datatypes.Int, 1)],
+                            qualifier=[model.Qualifier("q", model.datatypes.Int, 2)])
+        _HTTP_SM = (json.dumps(sm, cls=AASToJsonEncoder), etree.tostring(object_to_xml_element(sm)))
+    stripped = (i // 4) % 2 == 0
+    for fmt, body in (("json", _HTTP_SM[0]), ("xml", _HTTP_SM[1])):
+        try:
+            got = HTTPApiDecoder.json(body, model.Submodel, stripped) if fmt == "json" else HTTPApiDecoder.xml(body, model.Submodel, stripped)
+            n = (len(got.qualifier), len(got.submodel_element))
+            d = None if n == ((0, 0) if stripped else (1, 1)) else f"/: {n} (qualifiers, elements) for stripped={stripped}"
+        except Exception as e:
+            d = f"/: raised {type(e).__name__}: {str(e)[:120]}"
+        chk.count(f"http-body:{fmt}:{'core' if stripped else 'full'}")
+        if d:
+            chk.fail(sig(f"http-{fmt}-body", d), f"HTTP adapter body decoder ({fmt}, level={'core' if stripped else 'deep'}): {d}",
+                     {"format": fmt, "stripped": stripped})
 
 
 def canon_json(d):
@@ -154,6 +189,10 @@ def _run(chk):
                 d = aasgen.diff(want, stripped) or "?"
                 chk.fail(sig("writer", d), f"stripped JSON of a {cls} is not the full JSON minus the detachable members: {d}",
                          {"class": cls, "full_json": full, "stripped_json": stripped})
+            # other components of the SDK use the same decoder classes in the same process: the HTTP adapter parses request
+            # bodies with the strict (stripped) decoders; doing so must leave the readers as they were
+            if i % 4 == 0:
+                http_bodies(chk, i)
             # the documented way to get stripped behaviour is the class attribute `stripped`: a user-defined subclass that only
             # declares it (as the HTTP adapter's result encoder does) must behave like the shipped stripped classes
             via_attr = json.loads(json.dumps(obj, cls=USER_ENCODER))
